@@ -1,5 +1,9 @@
 (* C16 - every bitmap implementation behaves as a set of integers.
    Only statements, closed by exact, with Print Assumptions beneath. *)
+(* Bulk get/set of bit ranges: until the repair of the bit-array backend (da38f173) the refinement theorems carried the
+   hypothesis that ranges start on a byte boundary of the bitmap and have a whole number of bytes; probing that boundary on
+   the real code showed the two back ends disagreeing.  The only precondition left (op_pre) is that a SetRange request
+   comes with at least as many bits as it asks to store. *)
 From E2V Require Import Bitmap.BmGen Bitmap.RBModel Bitmap.BAModel Bitmap.FSetLemmas
      Bitmap.BackendOk Bitmap.RBProofs Bitmap.BAProofs Bitmap.GenProofs Bitmap.BmResize Bitmap.BmResizeProofs.
 Local Open Scope N_scope.
